@@ -267,6 +267,7 @@ pub struct Sub {
     pub states: u64,
     pub transitions: u64,
     pub notes: Vec<String>,
+    pub wall_ms: u64,
 }
 
 impl Sub {
@@ -288,6 +289,7 @@ impl Sub {
             states: 0,
             transitions: 0,
             notes: Vec::new(),
+            wall_ms: 0,
         }
     }
 
@@ -405,6 +407,7 @@ impl Sub {
         self.states += o.states;
         self.transitions += o.transitions;
         self.notes.extend(o.notes);
+        self.wall_ms = self.wall_ms.max(o.wall_ms);
     }
 
     pub fn distinct_nontrivial(&self) -> u64 {
@@ -442,6 +445,7 @@ impl Sub {
             "excluded_known": self.excluded_known,
             "samples": self.samples,
             "notes": self.notes,
+            "wall_ms": self.wall_ms,
             "failures": self.failures.values().map(|f| json!({"sig": f.sig, "count": f.count, "detail": f.detail, "case": f.case})).collect::<Vec<_>>(),
         })
     }
@@ -457,6 +461,7 @@ pub fn par_enum(ctx: &Ctx, proto: &Sub, n: u64, f: impl Fn(&mut Sub, u64) + Sync
     let threads = threads.min(n.max(1));
     let chunk = (n + threads - 1) / threads.max(1);
     let mut out = proto.like();
+    let t0 = Instant::now();
     let parts: Vec<Sub> = std::thread::scope(|s| {
         let mut hs = Vec::new();
         for t in 0..threads {
@@ -479,6 +484,7 @@ pub fn par_enum(ctx: &Ctx, proto: &Sub, n: u64, f: impl Fn(&mut Sub, u64) + Sync
         out.merge(p);
     }
     out.exhaustive = proto.exhaustive;
+    out.wall_ms = t0.elapsed().as_millis() as u64;
     out
 }
 
